@@ -217,7 +217,7 @@ def _variants(case, protect):
     return out
 
 
-def shrink(case, judge, cls, budget_rounds=6, protect=None, log=None):
+def shrink(case, judge, cls, budget_rounds=10, protect=None, log=None):
     """greedy parallel delta debugging: each round runs every single-step
     reduction, keeps the first that still shows the same violation class."""
     protect = protect or (lambda jb, i, op: op["op"] == "invoke" and op.get("final"))
